@@ -9,7 +9,7 @@ from hypothesis import strategies as st
 from vlib.core import Violation, Out, HarnessError
 from vlib.runner import HypStage
 from vlib import env
-from vlib.certs import (V1Cert, V1_NAMES, sk_from_int, pub_uncompressed, tweaked_sk, sign,
+from vlib.certs import (V1Cert, V1_NAMES, sk_from_int, pub_uncompressed, pub_compressed, tweaked_sk, sign,
                         v1_message_for)
 
 env.prepare()
@@ -31,10 +31,12 @@ ASSUMPTIONS = [
 ]
 REQUIRED_LABELS = {t: ["valid:%s" % n for n in V1_NAMES] + ["invalid:%s" % n for n in V1_NAMES] +
                    ["corruptions:0", "corruptions:1", "corruptions:2", "depth:3", "depth:4",
-                    "tweak", "revalidated:same", "revalidated:other", "duplicate-target"]
+                    "tweak", "revalidated:same", "revalidated:other", "duplicate-target",
+                    "compressed-key", "applied:key-field-reshaped"]
                    for t in ("quick", "thorough")}
 CORR = ["flip-message", "flip-signature", "flip-tweak", "swap-signatures", "other-key",
-        "drop-tweak", "add-tweak", "rekey", "wrong-root", "der-trailing", "flip-embedded-key"]
+        "drop-tweak", "add-tweak", "rekey", "wrong-root", "der-trailing", "flip-embedded-key",
+        "key-field-reshaped"]
 
 
 @st.composite
@@ -50,6 +52,10 @@ def cases(draw, tier):
                     "tweak": draw(st.one_of(st.none(), st.none(),
                                             st.binary(min_size=1, max_size=40))),
                     "filler": draw(st.binary(min_size=0, max_size=30)),
+                    # how the element's own key is written in its message (where the format
+                    # leaves a choice)
+                    "key_form": draw(st.sampled_from(["uncompressed", "uncompressed",
+                                                      "compressed"])),
                     "payload": draw(st.binary(min_size=1, max_size=120))})
     targets = draw(st.one_of(
         st.lists(st.sampled_from(names), min_size=1, max_size=4, unique=True),
@@ -88,6 +94,8 @@ def build(c):
     for e in c["elements"]:
         nm = e["name"]
         pub = pub_uncompressed(sks[nm])
+        if e.get("key_form") == "compressed" and nm != "device":
+            pub = pub_compressed(sks[nm])
         if nm in ("ui", "signer") and not children[nm]:
             msg = e["payload"]
         else:
@@ -107,6 +115,7 @@ def build(c):
         if e["tweak"] is not None:
             signer = tweaked_sk(signer, e["tweak"])
         e["signature"] = sign(signer, e["message"])
+    applied = []
     for k in c["corruptions"]:
         e = cert.elements[k["el"]]
         kind = k["kind"]
@@ -136,10 +145,22 @@ def build(c):
                 m = e["message"]
                 e["message"] = m[:-65] + flip(m[-65:], k["bit"])
                 resign(k["el"])
+        elif kind == "key-field-reshaped":
+            # the message still ENDS with the element's key, but what the format says is the
+            # key (all but the first byte of an attestation message, the whole ui / signer
+            # message) is not one any more: nothing this element certifies can be valid
+            if k["el"] != "device" and children[k["el"]]:
+                m = e["message"]
+                key = m[1:] if k["el"] == "attestation" else m
+                e["message"] = (m[:1] if k["el"] == "attestation" else b"") + \
+                    k["extra"][:1 + len(k["extra"]) % 2] + key
+                resign(k["el"])
+                applied.append(kind)
         elif kind == "wrong-root":
             root_pub = pub_uncompressed(sk_from_int(k["key"]))
         elif kind == "der-trailing":
             e["signature"] = e["signature"] + k["extra"]
+    cert.applied = applied
     return cert, root_pub
 
 
@@ -182,6 +203,10 @@ def run_case(c):
     labels = ["corruptions:%d" % len(c["corruptions"])]
     for k in c["corruptions"]:
         labels.append("corr:" + k["kind"])
+    for k in cert.applied:
+        labels.append("applied:" + k)
+    if any(e.get("key_form") == "compressed" and e["name"] != "device" for e in c["elements"]):
+        labels.append("compressed-key")
     if len(set(cert.targets)) != len(cert.targets):
         labels.append("duplicate-target")
     rounds = [("first", root_pub)]
